@@ -4,6 +4,8 @@ set -e
 cd "$(dirname "$0")/harness"
 export GOFLAGS=-mod=mod GOPROXY=off GOSUMDB=off GOTOOLCHAIN=local
 mkdir -p ../bin
-go build -tags verif -o ../bin/vh ./cmd/vh
-go build -tags verif -race -o ../bin/vh-race ./cmd/vh
+# warm the build cache for both variants (the driver links one binary per property and run)
+go build -tags verif -o ../bin/ ./cmd/...
+go build -tags verif -race -o ../bin/race/ ./cmd/...
+rm -rf ../bin/race ../bin/c[0-9][0-9]
 echo setup ok
